@@ -282,8 +282,12 @@ Proof.
   specialize (IH m1 I1). rewrite R in IH. exact IH.
 Qed.
 
-Lemma concurrent_thm : forall es m, m_holder m = None -> obs_documented (snd (run true m es)).
-Proof. intros es m H. apply run_ok. unfold inv. rewrite H. exact I. Qed.
+(* the translated wrapper dispatches on the current state *)
+Lemma redispatch_is_true : redispatch_after_lock = true.
+Proof. reflexivity. Qed.
+
+Lemma concurrent_thm : forall es m, m_holder m = None -> obs_documented (snd (run redispatch_after_lock m es)).
+Proof. intros es m H. rewrite redispatch_is_true. apply run_ok. unfold inv. rewrite H. exact I. Qed.
 
 (* a refused call has no effect, under either dispatch discipline, at every point of every schedule *)
 Lemma in_obs_edges_ret : forall ed i r, ~ In (ORet i r) (obs_edges ed).
@@ -329,19 +333,6 @@ Lemma concurrent_captured_refuted :
 Proof.
   exists f01_transfer, f01_schedule, ABORTED, PAUSED. split; [|vm_compute; reflexivity].
   vm_compute. tauto.
-Qed.
-
-(* both disciplines in one statement, instantiated below with the regenerated constant *)
-Lemma concurrent_dichotomy : forall b : bool,
-  if b then forall es m, m_holder m = None -> obs_documented (snd (run b m es))
-  else (trans QUEUED Download OAbort <> None -> trans QUEUED Download OPause <> None ->
-        documented ABORTED PAUSED = false ->
-        In (OEdge ABORTED PAUSED) (snd (run b (idle f01_transfer) f01_schedule)) ->
-        exists t es x y, In (OEdge x y) (snd (run b (idle t) es)) /\ documented x y = false).
-Proof.
-  destruct b.
-  - exact concurrent_thm.
-  - intros _ _ D H. exists f01_transfer, f01_schedule, ABORTED, PAUSED. split; assumption.
 Qed.
 
 (* ---------- sequential runs are schedules of the machine ---------- *)
